@@ -1031,7 +1031,8 @@ class Server:
             else:
                 resolved_virtual_path /= part
         base_path = connection.user.base_path
-        real_path = base_path / str(resolved_virtual_path.relative_to("/"))
+        # "./" keeps a leading drive-like segment ("C:", "C:x") a plain name on Windows flavours
+        real_path = base_path / ("./" + str(resolved_virtual_path.relative_to("/")))
         # replace with `is_relative_to` check after 3.9+ requirements lands
         if not real_path.is_relative_to(base_path) or ".." in real_path.parts[len(base_path.parts) :]:
             real_path = base_path
